@@ -12,6 +12,9 @@ import (
 	"fmt"
 	"os"
 	"path/filepath"
+	"runtime"
+	"sync"
+	"sync/atomic"
 	"time"
 
 	"github.com/snower/slock/protocol"
@@ -38,6 +41,7 @@ type vfInstance struct {
 	exQ     [][][]*LockQueue
 	now     int64
 	closed  bool
+	abandoned bool
 }
 
 func vfNewLeader(cfg vfInstCfg) (*vfInstance, error) {
@@ -92,6 +96,28 @@ func vfNewLeader(cfg vfInstCfg) (*vfInstance, error) {
 	return in, nil
 }
 
+// adoptDB puts a LockDB that the server created on its own (first request
+// for a new DbId) under the virtual clock.
+func (in *vfInstance) adoptDB(db *LockDB) {
+	in.dbs = append(in.dbs, db)
+	n := int(db.managerMaxGlocks)
+	tq := make([][]*LockQueue, n)
+	eq := make([][]*LockQueue, n)
+	for i := 0; i < n; i++ {
+		tq[i] = make([]*LockQueue, 5)
+		eq[i] = make([]*LockQueue, 5)
+		for j := 0; j < 5; j++ {
+			tq[i][j] = NewLockQueue(4, 16, 64)
+			eq[i][j] = NewLockQueue(4, 16, 64)
+		}
+	}
+	in.toQ = append(in.toQ, tq)
+	in.exQ = append(in.exQ, eq)
+	db.currentTime = in.now
+	db.checkTimeoutTime = in.now + 1
+	db.checkExpriedTime = in.now + 1
+}
+
 // Close stops the goroutines the instance owns (AOF channels) and closes the
 // log file, so that thousands of instances can be created in one process.
 func (in *vfInstance) Close() {
@@ -99,6 +125,11 @@ func (in *vfInstance) Close() {
 		return
 	}
 	in.closed = true
+	if in.abandoned {
+		// a panic unwound through server code: mutexes may still be held, do not wait for anything
+		verifHook = nil
+		return
+	}
 	aof := in.slock.GetAof()
 	_ = aof.WaitFlushAofChannel()
 	for _, db := range in.dbs {
@@ -130,6 +161,29 @@ func (in *vfInstance) Close() {
 	aof.aofGlock.Unlock()
 	in.slock.replicationManager.Close()
 	verifHook = nil
+}
+
+// breakAof closes the descriptor of the current append file behind the
+// server's back: every later log write fails until healAof.
+func (in *vfInstance) breakAof() {
+	aof := in.slock.GetAof()
+	aof.aofGlock.Lock()
+	if aof.aofFile != nil && aof.aofFile.file != nil {
+		_ = aof.aofFile.file.Close()
+	}
+	aof.aofGlock.Unlock()
+}
+
+// healAof drops the broken file object; the next log write rotates to a new
+// append file (the server's own recovery path in Aof.PushLock).
+func (in *vfInstance) healAof() {
+	aof := in.slock.GetAof()
+	aof.aofGlock.Lock()
+	if aof.aofFile != nil {
+		_ = aof.aofFile.Close()
+		aof.aofFile = nil
+	}
+	aof.aofGlock.Unlock()
 }
 
 // tick advances the virtual clock by n seconds (n is 1 or 2), running the real
@@ -226,6 +280,9 @@ type vfOp struct {
 func (o *vfOp) String() string {
 	switch o.Kind {
 	case "tick":
+		if o.Ticks == 0 {
+			return "*** " + o.At
+		}
 		return fmt.Sprintf("tick+%d", o.Ticks)
 	}
 	s := fmt.Sprintf("%s c%d db%d k%d L%d f=%02x t=%d/%04x e=%d/%04x cnt=%d rc=%d req=%d", o.Kind, o.Client, o.Db, o.Key, o.LockId, o.Flag, o.Timeout, o.TFlag, o.Expried, o.EFlag, o.Count, o.Rcount, o.Req)
@@ -293,7 +350,7 @@ var vfPointNames = map[int]string{
 // vfSettledPoints: yield points at which every completed critical section has
 // already emitted its reply, so reply order == critical-section order.
 var vfSettledPoints = map[int]bool{VP_LOCK_GOT_MANAGER: true, VP_UNLOCK_GOT_MANAGER: true, VP_UNLOCK_PRE_WAKE: true, VP_WAKE_LOOP: true,
-	VP_TIMEOUT_ENTER: true, VP_EXPIRE_ENTER: true}
+	VP_TIMEOUT_ENTER: true, VP_EXPIRE_ENTER: true, VP_ACK_ENTER: true}
 
 // vfUnsettledPoints: between the end of a critical section and its reply.
 var vfUnsettledPoints = map[int]bool{VP_LOCK_UNLOCKED: true, VP_UNLOCK_UNLOCKED: true, VP_WAKE_UNLOCKED: true, VP_TIMEOUT_UNLOCKED: true,
@@ -322,10 +379,17 @@ type vfEngine struct {
 	onEvent     func(ev *vfEvent)
 	onQueued    func(r *vfReq) // request returned without a reply
 	onStep      func()         // after each top-level or injected op completes
+	onHook      func(point int)
 	nKeys       int
 	nLockIds    int
 	curPoint    int
 	inflight    []*vfReq // lock requests submitted and not yet returned
+	ackMode     bool     // require-ack requests are generated: wait for the AOF channels after every operation
+	onAckThread int32    // >0 while a hook runs on an AOF channel goroutine
+	mu          sync.Mutex
+	muOwner     uint64 // goroutine id holding mu (re-entrant use)
+	muDepth     int
+	mainGoid    uint64
 }
 
 func vfKeyBytes(db uint8, k int) [16]byte {
@@ -378,7 +442,7 @@ func vfReqIdParse(b [16]byte) (uint64, int, bool) {
 }
 
 func vfNewEngine(in *vfInstance, rng *vfRand, nClients int) *vfEngine {
-	e := &vfEngine{in: in, rng: rng, byProto: map[*MemWaiterServerProtocol]*vfClient{}, reqs: map[uint64]*vfReq{}, maxDepth: 3, nextReq: 1}
+	e := &vfEngine{in: in, rng: rng, byProto: map[*MemWaiterServerProtocol]*vfClient{}, reqs: map[uint64]*vfReq{}, maxDepth: 3, nextReq: 1, mainGoid: vfGoid()}
 	for i := 0; i < nClients; i++ {
 		p := NewMemWaiterServerProtocol(in.slock)
 		c := &vfClient{idx: i, proto: p}
@@ -392,6 +456,10 @@ func vfNewEngine(in *vfInstance, rng *vfRand, nClients int) *vfEngine {
 
 func (e *vfEngine) callback(p *MemWaiterServerProtocol, cmd *protocol.LockCommand, result uint8, lcount uint16, lrcount uint8, data []byte) error {
 	c := e.byProto[p]
+	if e.ackMode {
+		e.lock()
+		defer e.unlock()
+	}
 	ev := &vfEvent{Seq: len(e.events), Tick: e.in.now, Client: -1, CmdType: cmd.CommandType, Result: result, Db: cmd.DbId,
 		Key: vfKeyIndex(cmd.LockKey), LockId: vfLockIdIndex(cmd.LockId), LCount: lcount, LRCount: lrcount}
 	if c != nil {
@@ -516,6 +584,7 @@ func (e *vfEngine) submit(op vfOp) *vfReq {
 	if len(r.Replies) == 0 && e.onQueued != nil {
 		e.onQueued(r)
 	}
+	e.quiesce()
 	if e.onStep != nil {
 		e.onStep()
 	}
@@ -545,8 +614,81 @@ func (e *vfEngine) doTick(n int) {
 	e.in.tick(n, e.rng)
 	e.inSweep--
 	e.curPoint = savedPoint
+	e.quiesce()
 	if e.onStep != nil {
 		e.onStep()
+	}
+}
+
+// quiesce lets the AOF channel goroutines finish everything that is pending
+// (log writes, flush, acknowledgement of require-ack locks and the replies that
+// follow), so that only one goroutine acts on the engine at any time.
+func (e *vfEngine) quiesce() {
+	if !e.ackMode || vfGoid() != e.mainGoid {
+		return // never wait for the AOF channels on one of their own goroutines
+	}
+	e.handover(func() { vfAofQuiesce(e.in) })
+}
+
+// handover runs fn (something that may wait for the AOF channel goroutines or
+// for the log mutex) with the engine lock released, so that those goroutines
+// can deliver replies and run hooks meanwhile.
+func (e *vfEngine) handover(fn func()) {
+	depth := 0
+	if e.ackMode && atomic.LoadUint64(&e.muOwner) == vfGoid() {
+		depth = e.muDepth
+		e.muDepth = 0
+		atomic.StoreUint64(&e.muOwner, 0)
+		e.mu.Unlock()
+	}
+	fn()
+	if depth > 0 {
+		e.mu.Lock()
+		atomic.StoreUint64(&e.muOwner, vfGoid())
+		e.muDepth = depth
+	}
+}
+
+// settle waits until the log has been flushed (handing the engine over to
+// the AOF channel goroutines in ack mode).
+func (e *vfEngine) settle() {
+	if e.ackMode {
+		e.quiesce()
+		return
+	}
+	_ = e.in.slock.GetAof().WaitFlushAofChannel()
+}
+
+func vfAofQuiesce(in *vfInstance) {
+	aof := in.slock.GetAof()
+	stable := 0
+	for iter := 0; iter < 10000 && stable < 2; iter++ {
+		_ = aof.WaitFlushAofChannel()
+		busy := atomic.LoadUint32(&aof.channelActiveCount) != 0
+		for _, db := range in.dbs {
+			for _, ch := range db.aofChannels {
+				ch.queueGlock.Lock()
+				if ch.queueCount != 0 || !ch.queuePulled {
+					busy = true
+				}
+				ch.queueGlock.Unlock()
+			}
+		}
+		aof.aofGlock.Lock()
+		if aof.aofFile != nil && (aof.aofFile.windex > 0 || aof.aofFile.ackIndex > 0) {
+			busy = true
+			aof.Flush()
+		}
+		aof.aofGlock.Unlock()
+		if busy {
+			stable = 0
+			time.Sleep(20 * time.Microsecond)
+		} else {
+			stable++
+		}
+		if iter == 9999 {
+			fmt.Println("HARNESS-ERROR: vfAofQuiesce gave up waiting for the AOF channels")
+		}
 	}
 }
 
@@ -554,7 +696,39 @@ func (e *vfEngine) onPoint(point int) {
 	if point <= 0 || point >= VP_MAX {
 		return
 	}
+	if point == VP_AOF_HANDLE_ENTER || point == VP_AOF_HANDLE_EXIT {
+		// in ack mode an AOF channel goroutine handles a record only while the
+		// main goroutine waits in quiesce(): every execution is sequential and
+		// replayable
+		if e.ackMode {
+			if point == VP_AOF_HANDLE_ENTER {
+				e.lock()
+			} else {
+				e.unlock()
+			}
+		}
+		return
+	}
+	if point >= VP_AOF_FLUSH_MID {
+		// log / compaction crash points are called with the log mutex held:
+		// nothing to interleave here in this engine
+		atomic.AddInt64(&e.pointHits[point], 1)
+		return
+	}
+	if point == VP_ACK_ENTER || point == VP_ACK_UNLOCKED {
+		// DoAckLock runs on an AOF channel goroutine (or on the caller's when the
+		// log write failed at once); the main goroutine is parked in quiesce()
+		atomic.AddInt32(&e.onAckThread, 1)
+		defer atomic.AddInt32(&e.onAckThread, -1)
+	}
+	if e.ackMode {
+		e.lock()
+		defer e.unlock()
+	}
 	e.pointHits[point]++
+	if e.onHook != nil {
+		e.onHook(point)
+	}
 	if e.injector == nil || e.depth >= e.maxDepth {
 		e.orderings = vfMix(e.orderings ^ uint64(point))
 		return
@@ -602,4 +776,41 @@ func vfScratchDir(env *vfEnv, name string) string {
 	_ = os.RemoveAll(d)
 	_ = os.MkdirAll(d, 0755)
 	return d
+}
+
+
+// vfGoid returns the id of the calling goroutine (parsed from its stack header).
+func vfGoid() uint64 {
+	var buf [40]byte
+	n := runtime.Stack(buf[:], false)
+	// "goroutine 123 [running]:..."
+	var id uint64
+	for i := len("goroutine "); i < n && buf[i] >= '0' && buf[i] <= '9'; i++ {
+		id = id*10 + uint64(buf[i]-'0')
+	}
+	return id
+}
+
+
+// lock / unlock: a goroutine-re-entrant mutex. In ack mode exactly one
+// goroutine acts on the engine and its monitors at any time: the main
+// goroutine owns it except while it waits in quiesce(); an AOF channel
+// goroutine delivering a reply (or running a hook) takes it meanwhile.
+func (e *vfEngine) lock() {
+	g := vfGoid()
+	if atomic.LoadUint64(&e.muOwner) == g {
+		e.muDepth++
+		return
+	}
+	e.mu.Lock()
+	atomic.StoreUint64(&e.muOwner, g)
+	e.muDepth = 1
+}
+
+func (e *vfEngine) unlock() {
+	e.muDepth--
+	if e.muDepth == 0 {
+		atomic.StoreUint64(&e.muOwner, 0)
+		e.mu.Unlock()
+	}
 }
